@@ -1,5 +1,155 @@
-import RTV.Model.NumCfg
-import RTV.Model.Spell
+import RTV.Lemmas.Spell
+/-!
+# C04 — spelled-out cardinals and ordinals resolve to the integer they denote (English: all `n < 10^15`)
+
+Model: `RTV.Num.getIntValue` = `BaseNumberParser.__get_int_value` (end-word scan, stack walk, round-number
+recursion; the variant in the tree, whose scan reaches index 0) with the **regenerated** English maps
+(`RTV/Gen/NumEn.lean`); specification: `RTV.Num.pieces` — the standard written-out form of `n` in 8 spelling
+variants (with/without "and" after "hundred", British "and" before a final group below 100, hyphenated tens),
+cardinal and ordinal. The correspondence harness takes its English inputs from this very function (driver op
+`n.spell`) and checks that `text_number_regex` tokenises the surface string into exactly `spell n v`.
+
+Proof shape: the words of 1..99 (cardinal / ordinal, with / without a leading "and") and the round words are
+evaluated by the kernel on the regenerated maps (`flat_facts`, `round_words` in `Lemmas/Spell` — a wrong map entry,
+e.g. `"seventy" ↦ 17`, breaks them); hundreds and the thousand / million / billion / trillion groups are composed
+with the round-number step lemma `good_step` (`Lemmas/IntValue`), for every `n`, without bound on the recursion.
+Other cultures: their maps are regenerated and the shared algorithm is tied to the code by unit correspondence on
+token lists over their own keys; no theorem is claimed for their numeral grammars (pipeline correspondence only).
+-/
 namespace RTV.Num
-theorem c04_placeholder : True := trivial
+open RTV.Py
+
+/-- value of the numeral of `n` (cardinal, or ordinal for `n > 0`) in every spelling variant -/
+theorem english_value (v : Variant) (ord : Bool) (n : Nat) (hn : n < 10 ^ 15) (hpos : ord = true → 0 < n) :
+    getIntValue true enT enL (toks (pieces v ord n)) = .ok n := by
+  unfold getIntValue
+  by_cases h0 : n = 0
+  · subst h0
+    have ho : ord = false := by
+      cases ord
+      · rfl
+      · exact absurd (hpos rfl) (by omega)
+    subst ho
+    obtain ⟨z1, z2⟩ := zero_word
+    have e : toks (pieces v false 0) = [wordAt small 0] := by simp [pieces, toks]
+    rw [e, eval_flat enT enL _ _ (by simpa using z2), (okNat_iff _ _).mp z1]
+    rfl
+  · rw [toks_pieces v ord n h0]
+    generalize hwt : (if ord && n / 1000000000 % 1000 == 0 && n / 1000000 % 1000 == 0 &&
+          n / 1000 % 1000 == 0 && n % 1000 == 0 then w_trillionth else w_trillion) = wt
+    generalize hwb : (if ord && n / 1000000 % 1000 == 0 && n / 1000 % 1000 == 0 &&
+          n % 1000 == 0 then w_billionth else w_billion) = wb
+    generalize hwm : (if ord && n / 1000 % 1000 == 0 && n % 1000 == 0 then w_millionth else w_million) = wm
+    generalize hwk : (if ord && n % 1000 == 0 then w_thousandth else w_thousand) = wk
+    obtain ⟨_, _, r3, r4, r5, r6, r7, r8, r9, r10⟩ := round_words
+    have lt : lookup enR wt = some 1000000000000 := by rw [← hwt]; split <;> assumption
+    have lb : lookup enR wb = some 1000000000 := by rw [← hwb]; split <;> assumption
+    have lm : lookup enR wm = some 1000000 := by rw [← hwm]; split <;> assumption
+    have lk : lookup enR wk = some 1000 := by rw [← hwk]; split <;> assumption
+    generalize hT : toks (group v (n / 1000000000000 % 1000) wt) ++ (toks (group v (n / 1000000000 % 1000) wb) ++
+      (toks (group v (n / 1000000 % 1000) wm) ++ (toks (group v (n / 1000 % 1000) wk) ++
+        toks (lastGroup v ord (decide (n ≥ 1000)) (n % 1000))))) = T
+    -- the last group
+    have base : ∃ e, Good true (getIntValueF true enT enL (T.length + 2)) enR
+        (toks (lastGroup v ord (decide (n ≥ 1000)) (n % 1000))) (n % 1000) e ∧ e ≤ 100 ∧
+        (100 ≤ n % 1000 → e = 100) := by
+      by_cases hu : n % 1000 = 0
+      · exact ⟨1, by simpa [lastGroup, hu, toks] using good_nil _ enR, by omega, by omega⟩
+      · have hb : (n % 1000 == 0) = false := by simp [hu]
+        by_cases c : (v.andFinal = true ∧ 1000 ≤ n) ∧ n % 1000 < 100
+        · have := good_sub1000 (T.length + 1) v ord true (n % 1000) (by omega) (by omega) (fun _ => c.2)
+          simpa [lastGroup, hb, c, toks_append, toks] using this
+        · have := good_sub1000 (T.length + 1) v ord false (n % 1000) (by omega) (by omega) (by simp)
+          simpa [lastGroup, hb, c, toks_append, toks] using this
+    obtain ⟨e0, g0, he0, h100⟩ := base
+    obtain ⟨e1, g1, he1, hk1, hk0⟩ := good_group T.length v (n / 1000 % 1000) wk 1000 _ _ e0 g0 (by omega) (by omega) lk
+      (by omega)
+    obtain ⟨e2, g2, he2, hm1, hm0⟩ := good_group T.length v (n / 1000000 % 1000) wm 1000000 _ _ e1 g1 (by omega)
+      (by omega) lm (by omega)
+    obtain ⟨e3, g3, he3, hb1, hb0⟩ := good_group T.length v (n / 1000000000 % 1000) wb 1000000000 _ _ e2 g2 (by omega)
+      (by omega) lb (by omega)
+    obtain ⟨e4, g4, he4, ht1, ht0⟩ := good_group T.length v (n / 1000000000000 % 1000) wt 1000000000000 _ _ e3 g3
+      (by omega) (by omega) lt (by omega)
+    rw [hT] at g4
+    have hval : 1000000000000 * (n / 1000000000000 % 1000) + (1000000000 * (n / 1000000000 % 1000) +
+        (1000000 * (n / 1000000 % 1000) + (1000 * (n / 1000 % 1000) + n % 1000))) = n := by
+      have : n < 1000000000000000 := by simpa using hn
+      omega
+    rw [hval] at g4
+    have hTne : T ≠ [] := by
+      intro hnil
+      rw [hnil] at g4
+      have := g4.2
+      simp [scanR, segGo] at this
+      exact h0 this.symm
+    by_cases hbig : 100 ≤ n
+    · -- some end word is present: the scan does not end with 1
+      have he : e4 ≠ 1 := by
+        by_cases a : n / 1000000000000 % 1000 = 0
+        · by_cases b : n / 1000000000 % 1000 = 0
+          · by_cases c : n / 1000000 % 1000 = 0
+            · by_cases d : n / 1000 % 1000 = 0
+              · have := h100 (by omega); have := ht0 a; have := hb0 b; have := hm0 c; have := hk0 d; omega
+              · have := hk1 d; have := ht0 a; have := hb0 b; have := hm0 c; omega
+            · have := hm1 c; have := ht0 a; have := hb0 b; omega
+          · have := hb1 b; have := ht0 a; omega
+        · have := ht1 a; omega
+      exact eval_of_good enT enL (T.length + 2) T n e4 g4 hTne he
+    · -- below 100: a flat list
+      have hlt : n < 100 := by omega
+      have e : T = flat ord false n := by
+        rw [← hT]
+        have a : n / 1000000000000 % 1000 = 0 := by omega
+        have b : n / 1000000000 % 1000 = 0 := by omega
+        have c : n / 1000000 % 1000 = 0 := by omega
+        have d : n / 1000 % 1000 = 0 := by omega
+        have u : n % 1000 = n := by omega
+        have hb : (n == 0) = false := by simp [h0]
+        have hge : decide (n ≥ 1000) = false := by simp; omega
+        simp only [a, b, c, d, u, group, lastGroup, hb, hge]
+        have key := toks_sub1000 v ord n (by omega)
+        simp only [hlt, if_true] at key
+        simpa [toks] using key
+      rw [e]
+      exact rec_flat _ ord false n (by omega) hlt
+
+/-- **C04 (English cardinals)** for every `n < 10^15` and every spelling variant, `__get_int_value` applied to the
+tokens of the written-out form of `n` is `n`. -/
+theorem english_cardinal (n : Nat) (hn : n < 10 ^ 15) (v : Variant) :
+    getIntValue true enT enL (spell n v) = .ok n :=
+  english_value v false n hn (by simp)
+
+/-- **C04 (English ordinals)** the ordinal form ("twenty-first", "two hundredth", "one million and fifth") denotes
+the same integer. -/
+theorem english_ordinal (n : Nat) (hn : n < 10 ^ 15) (h0 : 0 < n) (v : Variant) :
+    getIntValue true enT enL (spellOrd n v) = .ok n :=
+  english_value v true n hn (fun _ => h0)
+
+/-- the block lemma, as a statement of its own: every numeral below 1000 -/
+theorem english_sub1000 (n : Nat) (hn : n < 1000) (v : Variant) : getIntValue true enT enL (spell n v) = .ok n :=
+  english_cardinal n (by omega) v
+
+/-- hypotheses are satisfiable / the statement is not vacuous: a closed instance evaluated by the kernel -/
+example : getIntValue true enT enL (spell 1234567 ⟨true, true, true⟩) = .ok 1234567 :=
+  english_cardinal 1234567 (by decide) _
+
+/-- Table sanity on the regenerated maps: every word the generator emits for 1..99 is a key of the cardinal map
+(ordinal map for the ordinal forms) and none of them is a round word; the round words carry their values. -/
+theorem spell_words_in_maps :
+    (∀ r, 1 ≤ r → r < 100 → ∀ t ∈ toks (sub100 v0 false r), hasKey enL.cardinal t = true ∧ lookup enR t = none) ∧
+    lookup enR w_hundred = some 100 ∧ lookup enR w_thousand = some 1000 ∧ lookup enR w_million = some 1000000 ∧
+    lookup enR w_billion = some 1000000000 ∧ lookup enR w_trillion = some 1000000000000 := by
+  obtain ⟨r1, _, r3, _, r5, _, r7, _, r9, _⟩ := round_words
+  refine ⟨?_, r1, r3, r5, r7, r9⟩
+  intro r h1 h2 t ht
+  have hf := flat_facts false false r h1 h2
+  have hmem : t ∈ flat false false r := by simpa [flat] using ht
+  refine ⟨?_, hf.2 t hmem⟩
+  have : ((List.range 100).all fun r => (toks (sub100 v0 false r)).all fun t => hasKey enL.cardinal t) = true := by
+    decide +kernel
+  rw [List.all_eq_true] at this
+  have := this r (List.mem_range.mpr h2)
+  rw [List.all_eq_true] at this
+  exact this t ht
+
 end RTV.Num
